@@ -216,6 +216,17 @@ fn check_exemptions(n: usize, degs: &[(usize, Vec<usize>)], cases: &mut u64) {
                 if c2.num_transition_exemptions() != k {
                     fail(format!("num_transition_exemptions() == {} after set_num_transition_exemptions({k})", c2.num_transition_exemptions()));
                 }
+                // the composition polynomial has degree d = (highest evaluation degree) - (n - k): it has d + 1 coefficients, and
+                // the prescribed columns of n coefficients must hold them all, with no column to spare (C17)
+                let d = degs.iter().map(|(b, c)| eval_degree(*b, c, n)).max().unwrap() - (n - k);
+                let want = core::cmp::max(1, (d + 1 + n - 1) / n);
+                if c2.num_constraint_composition_columns() != want {
+                    fail(format!(
+                        "num_constraint_composition_columns() == {} for trace length {n}, degrees {degs:?}, {k} exemptions: the composition polynomial has degree {d}, i.e. {} coefficients, which need {want} columns of {n}",
+                        c2.num_constraint_composition_columns(),
+                        d + 1
+                    ));
+                }
             },
             Err(_) => {
                 if expected {
